@@ -108,12 +108,22 @@ VP_TEXT = inproc.VP_TEXT
 VP_INLINE = VP_TEXT.split('"""', 2)[2].split("LOG = []")[0]
 
 
-def via_example(files, F, kind):
+def option_list(F, split=False):
+    """the flags as one option, or spread over two occurrences of the option (every driver must read them the same way)"""
+    fl = sorted(F)
+    if not fl:
+        return []
+    if split and len(fl) >= 2:
+        return ["--inline-snapshot=" + fl[0], "--inline-snapshot=" + ",".join(fl[1:])]
+    return ["--inline-snapshot=" + ",".join(fl)]
+
+
+def via_example(files, F, kind, split=False):
     """returns (new files dict, reported categories or None, error)"""
     from inline_snapshot.testing import Example
 
     allf = dict(files)
-    args = ["--inline-snapshot=" + ",".join(sorted(F))] if F else []
+    args = option_list(F, split)
     import contextlib
     import io
 
@@ -134,11 +144,11 @@ def via_example(files, F, kind):
         return None, None, f"{type(e).__name__}: {e}\n{traceback.format_exc()[-600:]}"
 
 
-def raw_session(files, F, extra=()):
+def raw_session(files, F, extra=(), split=False):
     allf = dict(files)
     proj = session.Project(allf, with_vp=False)
     try:
-        args = (["--inline-snapshot=" + ",".join(sorted(F))] if F else []) + list(extra)
+        args = option_list(F, split) + list(extra)
         r = session.run_session(proj, args)
         new = {k: r.after[k].decode("utf-8") for k in files if k in r.after}
         return new, r
@@ -190,12 +200,15 @@ def run_shard(args):
         C["category_comparisons"] += 1
         if cats_inline is not None and set(cats_inline) != cats_raw:
             out["violations"].append({"kind": "reported-categories-differ", "detail": {"run_inline": sorted(cats_inline), "raw_short_report": sorted(cats_raw), "features": sorted(feats), "stdout_tail": r.stdout[-600:]}, "witness": {"files": wit_files, "flags": ["short-report"]}, "finding": classify(files, feats, None)})
-        for F in subsets:
-            a, _, ea = via_example(files, F, "inline")
-            b, _, eb = via_example(files, F, "pytest")
-            cfiles, rr = raw_session(files, F)
+        for si, F in enumerate(subsets):
+            split = len(F) >= 2 and (si + c + args.shard) % 3 == 0
+            if split:
+                C["flags_spread_over_two_options"] = C.get("flags_spread_over_two_options", 0) + 1
+            a, _, ea = via_example(files, F, "inline", split)
+            b, _, eb = via_example(files, F, "pytest", split)
+            cfiles, rr = raw_session(files, F, split=split)
             C["driver_runs"] += 3
-            wit = {"files": wit_files, "flags": sorted(F)}
+            wit = {"files": wit_files, "flags": sorted(F), "split": split}
             if ea or eb:
                 C["driver_errors"] += 1
                 out["violations"].append({"kind": "example-driver-raised", "detail": {"run_inline": ea, "run_pytest": eb, "F": sorted(F), "features": sorted(feats)}, "witness": wit, "finding": None})
